@@ -4,6 +4,7 @@ import (
 	"fmt"
 	"go/token"
 	"go/types"
+	"strings"
 
 	"golang.org/x/tools/go/ssa"
 
@@ -797,4 +798,142 @@ func siteName(i ssa.Instruction) string {
 		return pre + core.CalleeID(c)
 	}
 	return i.String()
+}
+
+// REDEEM-GUARD — only results that came out of the pool may be put (back) into it. Every call of the result
+// redeemer must be applied to a value that is (a) tested `wantsRedeemOnMerge` on the way (the mark of a pooled
+// result), or (b) the value of the pool's borrow function in the same activation, or (c) the result of a
+// validation run with result recycling switched on by a constant option in the same activation. A result
+// allocated with new(Result) that reaches the pool stays in its owner's hands while the next borrower clears it.
+func RedeemGuard(p *core.Prog, r *core.Report) {
+	const rule = "REDEEM-GUARD"
+	ra := newResAnalysis(p)
+	if ra.resNamed == nil {
+		r.Unk(rule, "result-type", "-", "pooled Result type not found")
+		return
+	}
+	n := 0
+	seq := map[string]int{}
+	for _, f := range p.Funcs {
+		if ra.resultRedeem[f] || ra.resultBorrow[f] {
+			continue
+		}
+		fn := core.FuncName(f)
+		core.EachInstr(f, func(i ssa.Instruction) {
+			c, ok := i.(ssa.CallInstruction)
+			if !ok {
+				return
+			}
+			g := core.StaticCallee(c)
+			if g == nil || !ra.resultRedeem[g] {
+				return
+			}
+			args := c.Common().Args
+			x := args[len(args)-1]
+			n++
+			vn := valName(ra.root(x))
+			if len(vn) > 1 && vn[0] == 't' && strings.Trim(vn[1:], "0123456789") == "" {
+				vn = "value" // SSA register names are not stable
+			}
+			base := fn + ":" + vn
+			seq[base]++
+			key := base
+			if seq[base] > 1 {
+				key = fmt.Sprintf("%s#%d", base, seq[base])
+			}
+			// (a) guarded by the pooled mark of the same value
+			xp, hasPath := core.StablePath(x)
+			for _, cond := range core.CondsAt(i.Block()) {
+				if !cond.Sense {
+					continue
+				}
+				if cp, ok := core.StablePath(cond.Value); ok && hasPath && cp == xp+".wantsRedeemOnMerge" {
+					r.OK(rule, key, p.Pos(i.Pos()), "released only when marked as pooled (wantsRedeemOnMerge)")
+					return
+				}
+				if ld, ok := cond.Value.(*ssa.UnOp); ok {
+					if fa, ok := ld.X.(*ssa.FieldAddr); ok {
+						if _, name, _ := core.FieldOf(fa); name == "wantsRedeemOnMerge" && ra.root(fa.X) == ra.root(x) {
+							r.OK(rule, key, p.Pos(i.Pos()), "released only when marked as pooled (wantsRedeemOnMerge)")
+							return
+						}
+					}
+				}
+			}
+			// (b) borrowed in this activation
+			if bc, ok := ra.root(x).(*ssa.Call); ok {
+				if h := core.StaticCallee(bc); h != nil && ra.resultBorrow[h] {
+					r.OK(rule, key, p.Pos(i.Pos()), "the value of the pool's borrow function in the same activation")
+					return
+				}
+			}
+			// deferred closure releasing a cell of the parent assigned from a recycling validation
+			if ra.definitelyPooled(x, f, 0) {
+				r.OK(rule, key, p.Pos(i.Pos()), "result of a validation run with result recycling switched on in this activation")
+				return
+			}
+			r.Bad(rule, key, p.Pos(i.Pos()), "a result is put into the pool without being known to come from it (no wantsRedeemOnMerge test, not borrowed here): a result allocated with new(Result) — e.g. the warnings a caller keeps — would be cleared and refilled by the next borrower")
+		})
+	}
+	r.Count("redeem_result_sites", n)
+	r.Floor("redeem_result_sites", 25)
+}
+
+// definitelyPooled: v is (a cell holding) the result of X.Validate where X was built in this activation (or the
+// parent's, for a deferred closure) with an option list containing the recycling switch set to constant true.
+func (ra *resAnalysis) definitelyPooled(v ssa.Value, f *ssa.Function, d int) bool {
+	if d > 6 {
+		return false
+	}
+	switch x := v.(type) {
+	case *ssa.UnOp:
+		if x.Op == token.MUL {
+			return ra.definitelyPooled(x.X, f, d+1)
+		}
+	case *ssa.FreeVar:
+		par := f.Parent()
+		if par == nil {
+			return false
+		}
+		idx := -1
+		for k, fv := range f.FreeVars {
+			if fv == x {
+				idx = k
+			}
+		}
+		ok := false
+		core.EachInstr(par, func(i ssa.Instruction) {
+			if mc, is := i.(*ssa.MakeClosure); is && mc.Fn == ssa.Value(f) && idx >= 0 && idx < len(mc.Bindings) {
+				ok = ra.definitelyPooled(mc.Bindings[idx], par, d+1)
+			}
+		})
+		return ok
+	case *ssa.Alloc:
+		stores, all := 0, true
+		for _, ref := range core.Refs(x) {
+			if st, ok := ref.(*ssa.Store); ok && st.Addr == ssa.Value(x) {
+				stores++
+				if !ra.definitelyPooled(st.Val, f, d+1) {
+					all = false
+				}
+			}
+		}
+		return stores > 0 && all
+	case *ssa.Call:
+		// X.Validate(...) where X = ctor(..., opts...) and the function sets the recycling option unconditionally
+		if _, m := recvOf(x); m == "Validate" {
+			recycles := false
+			core.EachInstr(f, func(i ssa.Instruction) {
+				if c, ok := i.(*ssa.Call); ok {
+					if g := core.StaticCallee(c); g != nil && g.Name() == "withRecycleResults" && len(c.Call.Args) == 1 {
+						if k, ok := c.Call.Args[0].(*ssa.Const); ok && k.Value != nil && k.Value.ExactString() == "true" {
+							recycles = true
+						}
+					}
+				}
+			})
+			return recycles
+		}
+	}
+	return false
 }
